@@ -124,4 +124,112 @@ example :
         + sumTo 1 (fun l => jacEntry R env k (2 + l) * 1) = 0) := by
   decide
 
+/-! ### the block-relaxation solvers deliver a solution of the linear system -/
+
+section GS
+variable {F : Type} [Field F]
+
+theorem row_split (n : Nat) (a : Nat → Nat → F) (x : Nat → F) (i : Nat) (hi : i < n) :
+    sumTo n (fun j => a i j * x j) = a i i * x i + offDiag n a x i := by
+  unfold offDiag
+  simp only [sumTo_eq]
+  rw [← Finset.add_sum_erase (range n) (fun j => a i j * x j) (mem_range.mpr hi)]
+  congr 1
+  rw [← Finset.add_sum_erase (range n) (fun j => if j = i then 0 else a i j * x j)
+    (mem_range.mpr hi)]
+  simp only [if_true, zero_add]
+  apply Finset.sum_congr rfl
+  intro j hj
+  have : j ≠ i := (Finset.mem_erase.mp hj).1
+  simp [this]
+
+/-- visiting unknown `i` makes row `i` hold -/
+theorem gsStep_row (n : Nat) (a : Nat → Nat → F) (b x : Nat → F) (i : Nat) (hi : i < n)
+    (hd : a i i ≠ 0) :
+    sumTo n (fun j => a i j * gsStep n a b x i j) = b i := by
+  rw [row_split n a _ i hi]
+  have h1 : gsStep n a b x i i = (b i - offDiag n a x i) / a i i := by simp [gsStep]
+  have h2 : offDiag n a (gsStep n a b x i) i = offDiag n a x i := by
+    unfold offDiag
+    simp only [sumTo_eq]
+    apply Finset.sum_congr rfl
+    intro j _
+    by_cases hj : j = i
+    · simp [hj]
+    · simp [hj, gsStep]
+  rw [h1, h2]
+  field_simp
+  ring
+
+/-- **LinearBlockGS: a fixed point of the sweep solves the system.**  If visiting any unknown leaves
+the iterate unchanged (what a converged block Gauss-Seidel iteration has reached) then every row
+of `A x = b` holds. -/
+theorem C01_gs_fixed_point (n : Nat) (a : Nat → Nat → F) (b x : Nat → F)
+    (hd : ∀ i, i < n → a i i ≠ 0) (hfix : ∀ i, i < n → gsStep n a b x i = x) :
+    ∀ i, i < n → sumTo n (fun j => a i j * x j) = b i := by
+  intro i hi
+  have := gsStep_row n a b x i hi (hd i hi)
+  rwa [hfix i hi] at this
+
+/-- a row that does not involve unknown `i` is not disturbed by visiting `i` -/
+theorem gsStep_keeps_row (n : Nat) (a : Nat → Nat → F) (b x : Nat → F) (i k : Nat)
+    (h0 : a k i = 0) :
+    sumTo n (fun j => a k j * gsStep n a b x i j) = sumTo n (fun j => a k j * x j) := by
+  simp only [sumTo_eq]
+  apply Finset.sum_congr rfl
+  intro j _
+  by_cases hj : j = i
+  · subst hj; simp [h0]
+  · simp [gsStep, hj]
+
+/-- rows of the unknowns visited so far hold, provided no visited row involves a later unknown -/
+theorem gsSweep_rows (n : Nat) (a : Nat → Nat → F) (b : Nat → F) :
+    ∀ (order : List Nat) (x : Nat → F) (done : List Nat),
+      (∀ i ∈ order, i < n ∧ a i i ≠ 0) →
+      (∀ k ∈ done, sumTo n (fun j => a k j * x j) = b k) →
+      (∀ k ∈ done, ∀ i ∈ order, a k i = 0) →
+      order.Pairwise (fun p q => a p q = 0) →
+      ∀ k ∈ done ++ order, sumTo n (fun j => a k j * gsSweep n a b x order j) = b k := by
+  intro order
+  induction order with
+  | nil => intro x done _ hdone _ _ k hk; simpa [gsSweep] using hdone k (by simpa using hk)
+  | cons i rest ih =>
+    intro x done hin hdone hz hpw k hk
+    obtain ⟨hi, hdi⟩ := hin i (by simp)
+    have hstep : gsSweep n a b x (i :: rest) = gsSweep n a b (gsStep n a b x i) rest := by
+      simp [gsSweep]
+    rw [hstep]
+    have hpw' := List.pairwise_cons.mp hpw
+    apply ih (gsStep n a b x i) (done ++ [i])
+    · intro j hj; exact hin j (List.mem_cons_of_mem _ hj)
+    · intro k hk
+      rcases List.mem_append.mp hk with hk | hk
+      · rw [gsStep_keeps_row n a b x i k (hz k hk i (by simp))]; exact hdone k hk
+      · have : k = i := by simpa using hk
+        subst this; exact gsStep_row n a b x k hi hdi
+    · intro k hk j hj
+      rcases List.mem_append.mp hk with hk | hk
+      · exact hz k hk j (List.mem_cons_of_mem _ hj)
+      · have : k = i := by simpa using hk
+        subst this; exact hpw'.1 j hj
+    · exact hpw'.2
+    · simpa [List.append_assoc] using hk
+
+/-- **LinearRunOnce on a feed-forward model is an exact solve.**  If no row involves an unknown
+that is visited later (the matrix is triangular with respect to the visiting order: execution
+order on `A` in forward mode, reverse order on `Aᵀ` in reverse mode), a single pass from any
+starting vector satisfies every visited row. -/
+theorem C01_runonce_triangular (n : Nat) (a : Nat → Nat → F) (b x : Nat → F) (order : List Nat)
+    (hin : ∀ i ∈ order, i < n ∧ a i i ≠ 0)
+    (htri : order.Pairwise (fun p q => a p q = 0)) :
+    ∀ k ∈ order, sumTo n (fun j => a k j * gsSweep n a b x order j) = b k := by
+  have := gsSweep_rows n a b order x [] hin (by simp) (by simp) htri
+  simpa using this
+
+example : gsSweep 2 (fun i j => if i = 1 ∧ j = 0 then (3 : Rat) else if i = j then 1 else 0)
+    (fun i => if i = 0 then 2 else 5) (fun _ => 7) [0, 1] 1 = -1 := by
+  decide +kernel
+
+end GS
+
 end OMV.Spec
